@@ -77,6 +77,19 @@ def any_helper(name, src_rel, pat, pred_fix=lambda p: p, extra_param='', spec='t
     return pred
 
 
+def _ghost_wire_at_send_batch(text):
+    """`match socket.send_batch(&bufs[LO..HI]) {`  ->  bind the result, record in the ghost wire log exactly the datagrams the
+    socket reports as accepted (the first n of the offered slice), then match on the bound result.  The ghost update is derived from
+    the call's own arguments and result, not from how the code afterwards advances its cursor."""
+    m = re.search(r'match socket\.send_batch\(&bufs\[(.+?)\.\.(.+?)\]\) \{', text)
+    if not m:
+        return text
+    lo, hi = m.group(1).strip(), m.group(2).strip()
+    new = ('let sb_res = socket.send_batch(&bufs[%s..%s]);\n        proof { if sb_res is Ok { wire = wire + slice_views(bufs@).subrange((%s) as int, (%s) + sb_res->Ok_0); } }\n        match sb_res {'
+           % (lo, hi, lo, lo))
+    return text[:m.start()] + new + text[m.end():]
+
+
 def build():
     u = world.build('route', active=['route'])
     u.use('use std::net::SocketAddr;')
@@ -86,10 +99,10 @@ def build():
     u.add(STUBS)
 
     # ---------------- send_all_datagrams ----------------
-    u.add(u.fn(NM, 'send_all_datagrams', sub='route', ret='r', erase_async=True, props=('C01',),
+    u.add(u.fn(NM, 'send_all_datagrams', sub='route', ret='r', erase_async=True, props=(),
                post_rewrite=[('std::io::Result<()>', 'Result<(), IoError>', 1), ('let mut sent = 0;', 'let mut sent: usize = 0;', 1),
                              (re.compile(r'std::io::Error::new\(\s*std::io::ErrorKind::WriteZero,\s*"[^"]*",?\s*\)'), 'io_error_write_zero()', 1),
-                             ('Ok(n) => sent += n,', 'Ok(n) => { proof { wire = wire + slice_views(bufs@).subrange(sent as int, sent + n); } sent += n }', 1)],
+                             (_ghost_wire_at_send_batch, None, 1)],
                loops={0: dict(inv=['sent <= total', 'total == bufs.len()',
                                    C('C01.route.send_all_datagrams.every_datagram_handed_to_the_socket_once_in_order', 'wire =~= slice_views(bufs@).subrange(0, sent as int)')],
                               dec='total - sent')},
@@ -101,7 +114,7 @@ def build():
 }''', 'replace')]))
 
     # ---------------- send_connection_batch ----------------
-    u.add(u.fn(PH, 'send_connection_batch', sub='route', ret='r', erase_async=True, props=('C01',),
+    u.add(u.fn(PH, 'send_connection_batch', sub='route', ret='r', erase_async=True, props=(),
                post_rewrite=[('std::io::Result<()>', 'Result<(), IoError>', 1), ('&crate::net::BatchUdpSocket', '&BatchUdpSocket', 1), ('srtla_core::utils::now_ms()', 'now_ms()', 1),
                              ('crate::net::send_all_datagrams(', 'send_all_datagrams(', 1),
                              (re.compile(r'let bufs: Vec<&\[u8\]> = batch\.iter\(\)\.map\(\|\(data, _, _\)\| data\.as_slice\(\)\)\.collect\(\);'), 'let bufs: Vec<&[u8]> = batch_slices(&batch);', 1)],
@@ -120,7 +133,7 @@ def build():
 
     # ---------------- forward_via_connection ----------------
     SEL = 'sel_idx as int'
-    u.add(u.fn(PH, 'forward_via_connection', sub='route', erase_async=True, props=('C01',),
+    u.add(u.fn(PH, 'forward_via_connection', sub='route', erase_async=True, props=(),
                post_rewrite=[('&io.socket', 'io.sock()', 1)],
                requires=['route_wf(old(connections)@)', 'sel_idx < old(connections).len() ==> size_ok(&old(connections)[sel_idx as int])'],
                ensures=[
@@ -141,7 +154,7 @@ def build():
                ]))
 
     # ---------------- send_stall_probes ----------------
-    u.add(u.fn(PH, 'send_stall_probes', sub='route', erase_async=True, props=('C01',),
+    u.add(u.fn(PH, 'send_stall_probes', sub='route', erase_async=True, props=(),
                post_rewrite=[('&io.socket', 'io.sock()', 1)],
                requires=['route_wf(old(connections)@)', 'forall|j: int| 0 <= j < old(connections).len() && j != sel_idx ==> size_ok(&#[trigger] old(connections)[j])'],
                ensures=[
@@ -195,7 +208,7 @@ pub fn flush_has_work(connections: &[SrtlaConnection], now: u64) -> (r: bool)
     false
 }
 ''' % pred)
-    u.add(u.fn(PH, 'flush_all_batches', sub='route', erase_async=True, props=('C01',),
+    u.add(u.fn(PH, 'flush_all_batches', sub='route', erase_async=True, props=(),
                pre_rewrite=[(re.compile(r'let has_work = connections\s*\.iter\(\)\s*\.any\(\|c\| .*?\);', re.S), 'let has_work = flush_has_work(connections, now);', 1)],
                post_rewrite=[('&io.socket', 'io.sock()', 1), ('srtla_core::utils::now_ms()', 'now_ms()', 1)],
                requires=['route_wf(old(connections)@)', 'sizes_ok(old(connections)@)'],
@@ -213,7 +226,7 @@ pub fn flush_has_work(connections: &[SrtlaConnection], now: u64) -> (r: bool)
                               dec='connections.len() - conn_nx')}))
 
     # ---------------- handle_srt_packet ----------------
-    u.add(u.fn(PH, 'handle_srt_packet', sub='route', erase_async=True, props=('C01',),
+    u.add(u.fn(PH, 'handle_srt_packet', sub='route', erase_async=True, props=(),
                post_rewrite=[('Result<(usize, SocketAddr), std::io::Error>', 'Result<(usize, SocketAddr), IoError>', 1), ('srtla_core::utils::now_ms()', 'now_ms()', 1),
                              ('srtla_protocol::get_srt_sequence_number(', 'get_srt_sequence_number(', 1), ('srtla_protocol::is_srt_data_retransmit(', 'is_srt_data_retransmit(', 1),
                              ('srtla_core::priority::select_best_quality_idx(', 'select_best_quality_idx(', 1), ('&srtla_core::priority::CriticalWindow', '&CriticalWindow', 1),
